@@ -8,6 +8,8 @@
 
 From Servitor Require Import Base Mime Json Jtp.
 From Servitor.Facts Require Import JtpFacts.
+From Servitor Require Import Mime Json Object Webfinger.
+From Servitor.Facts Require Import WebfingerFacts.
 
 (* a document is returned only via at most b redirects, each to an https URL, the final response classified as a document, and the reported source is the URL of that final response *)
 Theorem cold_sound :
@@ -115,3 +117,47 @@ Theorem cache_transparent_refuted :
   hist []) u)) <> fst (fst (get W is_https resolve tol 0 20 [] u)).
 Proof. exact cache_transparent_refuted_fact. Qed.
 Print Assumptions cache_transparent_refuted.
+
+(* webfinger lookups go through the same bounded Get with their own tolerated types (jrd+json, json) *)
+Theorem wf_requests :
+  forall (W : url -> entry) (is_https : url -> bool) (resolve : url -> bytes -> option url)
+  (cap : nat) (mk_url : bytes -> bytes -> url) (c : cache) (name : bytes),
+  let
+  '(_, _, log) := resolve_webfinger W is_https resolve cap mk_url c name in
+  Forall (fun r : url => is_https r = true /\ e_dial (W r) = true) log /\
+  length log <= S Client.MAX_REDIRECTS.
+Proof. exact wf_requests_fact. Qed.
+Print Assumptions wf_requests.
+
+(* and only ever add cache entries under keys tagged with their request kind: a response validated for one kind of request never answers another (the repaired defect) *)
+Theorem wf_cache_keys :
+  forall (W : url -> entry) (is_https : url -> bool) (resolve : url -> bytes -> option url)
+  (cap : nat) (mk_url : bytes -> bytes -> url) (c : cache) (name : bytes)
+  (k : url),
+  let
+  '(_, c', _) := resolve_webfinger W is_https resolve cap mk_url c name in
+  In k (map fst c') -> In k (map fst c) \/ (exists u : url, k = tag u).
+Proof. exact wf_cache_keys_fact. Qed.
+Print Assumptions wf_cache_keys.
+
+(* the link returned is the href of the FIRST rel=self entry with an ActivityPub type; everything before it was a well-formed entry that was skipped *)
+Theorem wf_scan_link :
+  forall (l : list jv) (h : text),
+  wf_scan l = WFLink h ->
+  exists (pre : list jv) (o : list (text * jv)) (post : list jv),
+  l = pre ++ JObj o :: post /\
+  get_string o s_rel = Present s_self /\
+  (exists m : media_type,
+  get_media_type o s_type = Present m /\ mt_matches m wf_types = true) /\
+  get_string o s_href = Present h /\
+  Forall
+  (fun e : jv => exists o' : list (text * jv), e = JObj o' /\ wf_scan [e] = WFNotFound)
+  pre.
+Proof. exact wf_scan_link_fact. Qed.
+Print Assumptions wf_scan_link.
+
+Theorem wf_scan_notfound :
+  forall l : list jv,
+  wf_scan l = WFNotFound <-> Forall (fun e : jv => wf_scan [e] = WFNotFound) l.
+Proof. exact wf_scan_notfound_fact. Qed.
+Print Assumptions wf_scan_notfound.
